@@ -213,3 +213,24 @@ Section CheckerProofs.
     - apply antichain_ok_iff in HA1. tauto.
   Qed.
 End CheckerProofs.
+
+(* ---------------------------------------------------------------- the width cache *)
+Section WidthCacheProofs.
+  Variable s t : node.
+  Variable solve : (edge -> Z) -> Z.
+
+  Lemma wrun_inv : forall os cache, (cache = None \/ cache = Some (solve (w_width []))) ->
+    wrun s t solve cache os = map (fun o => solve (wop_demand s t o)) os.
+  Proof.
+    induction os as [|o r IH]; intros cache Hc; cbn [wrun map]; [reflexivity|].
+    destruct o as [[|e ign]|wf]; cbn [wstep wop_demand].
+    - destruct Hc as [->| ->]; cbn [wop_demand]; f_equal; apply IH; right; reflexivity.
+    - f_equal. apply IH, Hc.
+    - f_equal. apply IH, Hc.
+  Qed.
+
+  (* for every history on one object every answer is the answer of a fresh object: what get_width caches never leaks into
+     compute_max_edge_antichain nor into a get_width with an ignore list *)
+  Theorem width_cache_coherent os : wrun s t solve None os = map (fun o => solve (wop_demand s t o)) os.
+  Proof. apply wrun_inv. left. reflexivity. Qed.
+End WidthCacheProofs.
